@@ -55,7 +55,7 @@ def pick_root(rng, decl):
     return ""
 
 
-def gen_ops(rng, n, kinds):
+def gen_ops(rng, n, kinds, cli_share=0.08):
     ops = []
     clzs, decl = gen_model(rng)
     for _ in range(n):
@@ -115,7 +115,25 @@ def gen_ops(rng, n, kinds):
                                 "MethodName": hf["Name"]}]
                 decl = [(c["Package"], c["NodeName"], f["Name"]) for c in clzs for f in c["Functions"]]
             ops.append({"op": "api", "clzs": clzs, "apis": apis, "di": di})
+    # the CLI tier: one op in twelve goes through the real command (`coca call|rcall|api`, cmd/*.go) in a fresh process; what
+    # it leaves in coca_reporter/ is judged by the same oracle and compared with the model started from its initial state
+    for o in ops:
+        if rng.random() < cli_share and cli_ok(o):
+            o["cli"] = True
     return ops
+
+
+def cli_ok(o):
+    """names survive the command line and the CSV report (no quote, comma or blank padding), rcall has a target, no DI map"""
+    if o["op"] == "rcall" and o["target"] == "":
+        return False
+    if o["op"] == "api" and (o["di"] or not names_ok(o["clzs"], [a["Uri"] + a["HttpMethod"] for a in o["apis"]])):
+        return False
+    if o["op"] == "api":
+        for a in o["apis"]:
+            if any(ch in a[k] for k in ("PackageName", "ClassName", "MethodName", "Uri") for ch in '",'):
+                return False
+    return True
 
 
 # --------------------------------------------------------------------------------------------
